@@ -231,8 +231,7 @@ func createOrExtendTokenInStorage(c fiber.Ctx, token string, cfg Config, session
 
 func deleteTokenFromStorage(c fiber.Ctx, token string, cfg Config, sessionManager *sessionManager, storageManager *storageManager) error {
 	if cfg.Session != nil {
-		sessionManager.delRaw(c)
-		return nil
+		return sessionManager.delRaw(c)
 	}
 	return storageManager.delRaw(token)
 }
